@@ -463,7 +463,9 @@ class Run:
 
     def _asend_direct(self, handle):
         meth = getattr(handle, "asend", None)
-        return meth is not None and getattr(meth, "__self__", None) is self.u
+        owner = getattr(meth, "__self__", None)
+        # (the underlying iterator may be a transparent proxy: its bound methods belong to the object behind it)
+        return meth is not None and (owner is self.u or owner is getattr(self.u, "_inner", self.u))
 
     def _tool_item(self, kind, v):
         if kind == "groupby":
